@@ -969,6 +969,17 @@ async fn run_async(scenario: &Scenario) -> Outcome {
             ms,
         } = &op.kind
         {
+            // A jump never happens while a maintenance run is mid-flight: run_maintenance reads the
+            // clock once per account, in HashSet order, so a jump in the middle would let that
+            // (unseedable) order decide which accounts' transactions expire.
+            while !crate::mempool::verif_probe::is_quiescent(&world.mempool) {
+                if !sim.step().await {
+                    break;
+                }
+            }
+            if sim.panicked {
+                break 'ops;
+            }
             sim.trace.ev(&format!("advance {ms}ms"));
             tokio::time::advance(Duration::from_millis(*ms)).await;
             sim.sim_ms += *ms;
